@@ -2,6 +2,7 @@
 MODULES = [
     "contracts.c_map",
     "contracts.c_static",
+    "contracts.c_zip",
 ]
 EXPECTED_MIN_OBLIGATIONS = {}
 PROPERTY_ASSUMPTIONS = {}
